@@ -695,6 +695,8 @@ class Pervaporation:
         :return: non-ideal diffusion curve
         """
 
+        initial_feed_composition = initial_feed_composition.to_weight(self.mixture)
+
         measurements_first = Measurements.from_diffusion_curves_first(
             diffusion_curve_set
         )
@@ -1041,14 +1043,14 @@ class Pervaporation:
         facilitation_rate_first = (
             first_component_permeance.value
             / pervaporation_function_first(
-                x=conditions.initial_feed_composition.first,
+                x=feed_composition[0].first,
                 t=conditions.initial_feed_temperature,
             )
         )
         facilitation_rate_second = (
             second_component_permeance.value
             / pervaporation_function_second(
-                x=conditions.initial_feed_composition.first,
+                x=feed_composition[0].first,
                 t=conditions.initial_feed_temperature,
             )
         )
@@ -1358,14 +1360,14 @@ class Pervaporation:
         facilitation_rate_first = (
             first_component_permeance.value
             / pervaporation_function_first(
-                x=conditions.initial_feed_composition.first,
+                x=feed_composition[0].first,
                 t=conditions.initial_feed_temperature,
             )
         )
         facilitation_rate_second = (
             second_component_permeance.value
             / pervaporation_function_second(
-                x=conditions.initial_feed_composition.first,
+                x=feed_composition[0].first,
                 t=conditions.initial_feed_temperature,
             )
         )
